@@ -10,6 +10,7 @@ import Midgard.Spec.RinexNav
 import Midgard.Proofs.FixedCol
 import Midgard.Proofs.Decimal
 import Midgard.Proofs.RinexNavFile
+import Midgard.Proofs.RinexNavDispatch
 
 namespace Midgard.Props.C12
 open Midgard.RinexNav Midgard.Generated.RinexNav Midgard.FixedCol Midgard.Text Midgard.Decimal
@@ -728,6 +729,137 @@ example : (accumV2 v2 "G" (render2 demoNav2)).map (fun st => st.epochs.map (fun 
 
 end File
 
+/-! ## 7. The dispatcher `rinex_nav`: the parser is chosen by the text that is in the file -/
+
+section Dispatch
+open Midgard.Spec.RinexNavFile
+
+/-- **dispatch_render3**: the dispatcher's choice for a rendered RINEX 3 file is decided by the version token
+printed in columns 1–20 of its first line — by the text that is in the file, and by nothing else -/
+theorem dispatch_render3 (f : NavFile) (hwf : f.wf = true) (k : Nat) (v : Str)
+    (hver : f.version = blanks k ++ v) (hv : Token v = true) (hlen : k + v.length < 20) :
+    dispatch (render3 f) = classify v := by
+  unfold dispatch render3
+  have hnl := nonl_fileLines3 f hwf
+  have hfl : fileLines3 f = (blanks k ++ v ++ ' ' :: (blanks (19 - (k + v.length)) ++
+      (ljust 20 f.ftype ++ f.satSys :: ljust 19 f.sysText ++ versionLabel))) ::
+      (f.hlines.map hline ++ [blanks 60 ++ endLabel] ++ (f.items.map itemLines3).flatten) := by
+    simp only [fileLines3, headerLines, hver, ljust_version k v hlen]
+    simp [List.append_assoc]
+  rw [hfl] at hnl ⊢
+  rw [rinexVersion_first _ _ hnl k v _ rfl hv]
+  rfl
+
+theorem dispatch_render2 (f : NavFile) (hwf : f.wf2 = true) (k : Nat) (v : Str)
+    (hver : f.version = blanks k ++ v) (hv : Token v = true) (hlen : k + v.length < 20) :
+    dispatch (render2 f) = classify v := by
+  unfold dispatch render2
+  have hnl := nonl_fileLines2 f hwf
+  have hfl : fileLines2 f = (blanks k ++ v ++ ' ' :: (blanks (19 - (k + v.length)) ++
+      (ljust 40 f.ftype ++ versionLabel))) ::
+      (f.hlines.map hline ++ [blanks 60 ++ endLabel] ++ ((supported f.items).map navLines2).flatten) := by
+    simp only [fileLines2, headerLines2, hver, ljust_version k v hlen]
+    simp [List.append_assoc]
+  rw [hfl] at hnl ⊢
+  rw [rinexVersion_first _ _ hnl k v _ rfl hv]
+  rfl
+
+/-- **parseNav_render3**: `parsers.parse_file("rinex_nav", path)` on a rendered RINEX 3.x file — whatever the
+file is called, whatever was parsed before (the model has no state) — is the RINEX 3 post-processing of exactly
+the records of the file -/
+theorem parseNav_render3 (f : NavFile) (hwf : f.wf = true) (k : Nat) (v : Str)
+    (hver : f.version = blanks k ++ v) (hv : Token v = true) (hlen : k + v.length < 20) (h3 : v.head? = some '3')
+    (ext2 ext212 : List (String × String)) (name : Str) :
+    parseNav v3 v2 v212 ext2 ext212 name (render3 f) =
+      (postV3 v3 [f.satSys] (expectedState f.items)).map fun d => (NavParser.rinex3, d) := by
+  unfold parseNav
+  rw [dispatch_render3 f hwf k v hver hv hlen]
+  have hc : classify v = some .rinex3 := by
+    unfold classify
+    simp [h3]
+  rw [hc, parse_v3_of_records f hwf]
+
+/-- **parseNav_render2**: a rendered RINEX 2.x GPS file under a name that stands for GPS is read by `rinex212_nav`
+exactly when its version token is `2.12`, else by `rinex2_nav`, and yields the RINEX 2 post-processing of exactly
+the records of the file -/
+theorem parseNav_render2 (f : NavFile) (hwf : f.wf2 = true) (k : Nat) (v : Str)
+    (hver : f.version = blanks k ++ v) (hv : Token v = true) (hlen : k + v.length < 20) (h2 : v.head? = some '2')
+    (name : Str) (hn2 : systemOfName2 v2SysExt name = some "G") (hn212 : systemOfName212 v212SysExt name = some "G") :
+    parseNav v3 v2 v212 v2SysExt v212SysExt name (render2 f) =
+      if v = "2.12".toList then (postV2 v212 "G" (expectedState f.items)).map fun d => (NavParser.rinex212, d)
+      else (postV2 v2 "G" (expectedState f.items)).map fun d => (NavParser.rinex2, d) := by
+  unfold parseNav
+  rw [dispatch_render2 f hwf k v hver hv hlen]
+  unfold classify
+  by_cases h : v = "2.12".toList
+  · simp only [if_true, h, hn212, Option.bind_some, parseV2, file_records_v2 v212 (Or.inr rfl) f hwf]
+    rfl
+  · simp only [h2, if_true, h, if_false, hn2, Option.bind_some, parseV2, file_records_v2 v2 (Or.inl rfl) f hwf]
+    rfl
+
+example : demoNav.version = blanks 5 ++ "3.04".toList ∧ Token "3.04".toList = true ∧ 5 + "3.04".toList.length < 20 ∧
+    "3.04".toList.head? = some '3' := by decide
+example : demoNav2.version = blanks 5 ++ "2.11".toList ∧ Token "2.11".toList = true ∧ "2.11".toList.head? = some '2' := by decide
+example : systemOfName2 v2SysExt "brdc1660.21n".toList = some "G" ∧ systemOfName212 v212SysExt "brdc1660.21n".toList = some "G" ∧
+    systemOfName212 v212SysExt "VRF100NOR_R_20190010000_01D_GN.rnx".toList = some "G" ∧
+    systemOfName2 v2SysExt "VRF100NOR_R_20190010000_01D_GN.rnx".toList = Option.none := by decide +kernel
+
+/-- text mode changes nothing in a text without carriage returns -/
+theorem universalNewlines_id (t : Str) (h : ∀ c ∈ t, c ≠ '\r') : universalNewlines t = t := by
+  unfold universalNewlines
+  induction t with
+  | nil => rfl
+  | cons c rest ih =>
+    have hc : c ≠ '\r' := h c (by simp)
+    simp only [unlAux, hc, if_false, Bool.false_eq_true, and_false]
+    rw [ih (fun d hd => h d (by simp [hd]))]
+
+/-- **unsupported, stated**: a RINEX 2.x navigation file whose name stands for a system outside C E G I J (GLONASS
+`.yyg`, any other letter of a long name) is refused whatever it contains: the post-processing never returns columns -/
+theorem v2_other_system_refused (T : Tables) (system : String) (hs : ¬ system ∈ ["C", "E", "G", "I", "J", "M"]) (st : St) :
+    postV2 T system st = Option.none := by
+  unfold postV2
+  by_cases he : st.data.isEmpty = true
+  · simp [he]
+  · have hc : (["C", "E", "G", "I", "J", "M"].contains system) = false := by
+      simpa using hs
+    have htc : ∀ (d : Cols), timeCorrection T system st.epochs d = Option.none := by
+      intro d
+      unfold timeCorrection
+      simp only [hc, Bool.not_false, if_true]
+      rfl
+    simp only [he, Bool.false_eq_true, if_false, htc]
+    rfl
+
+theorem glonass_v2_refused (T : Tables) (text : Str) : parseV2 T "R" text = Option.none := by
+  unfold parseV2
+  cases accumV2 T "R" text with
+  | none => rfl
+  | some st => exact v2_other_system_refused T "R" (by decide) st
+
+/-- on a file without carriage returns the driver's text-mode entry point is `parseNav` itself -/
+theorem parseNavText_eq (T3 T2 T212 : Tables) (e2 e212 : List (String × String)) (name t : Str) (h : ∀ c ∈ t, c ≠ '\r') :
+    parseNavText T3 T2 T212 e2 e212 name t = parseNav T3 T2 T212 e2 e212 name t := by
+  unfold parseNavText
+  rw [universalNewlines_id t h]
+
+/-- **the BeiDou shift is applied to exactly the records of system C**: for EVERY system text `s` (not only the five
+supported letters) the second / week offsets the time correction adds to a record of system `s` are 14 s / 1356 weeks
+when `s = "C"` and 0 otherwise, in all three parsers' tables -/
+theorem offsets_only_beidou (T : Tables) (hT : T = v3 ∨ T = v2 ∨ T = v212) (s : String) :
+    lookupI T.secOffset s = (if s = "C" then 14 else 0) ∧ lookupI T.weekOffset s = (if s = "C" then 1356 else 0) := by
+  rcases hT with rfl | rfl | rfl <;>
+  · constructor <;>
+    · simp only [lookupI, v3, v2, v212, List.find?_cons, List.find?_nil]
+      by_cases hC : "C" = s
+      · subst hC; simp
+      · have hC' : ¬ s = "C" := fun e => hC e.symm
+        simp only [hC, hC', decide_false, if_false]
+        repeat' split
+        all_goals simp_all
+
+end Dispatch
+
 end Midgard.Props.C12
 
 #print axioms Midgard.Props.C12.layouts_sorted
@@ -767,3 +899,12 @@ end Midgard.Props.C12
 #print axioms Midgard.Props.C12.kvOf_keys
 #print axioms Midgard.Props.C12.col_pushRow
 #print axioms Midgard.Props.C12.expectedData_col
+#print axioms Midgard.Props.C12.dispatch_render3
+#print axioms Midgard.Props.C12.dispatch_render2
+#print axioms Midgard.Props.C12.parseNav_render3
+#print axioms Midgard.Props.C12.parseNav_render2
+#print axioms Midgard.Props.C12.universalNewlines_id
+#print axioms Midgard.Props.C12.v2_other_system_refused
+#print axioms Midgard.Props.C12.glonass_v2_refused
+#print axioms Midgard.Props.C12.parseNavText_eq
+#print axioms Midgard.Props.C12.offsets_only_beidou
